@@ -287,7 +287,11 @@ def run(ctx):
     # an authentic peer that says unusual things: whatever it says, no entry point may raise afterwards (timers keep running)
     import rogue
     import campaign as CPX
-    rogue.campaign(ctx, res, ctx.scale(12, 200), 50, oracles=[CPX.o_no_escape])
+    # forced in every run (not left to the random stream): answers whose SPI has the wrong size or repeats ours, each followed by the
+    # deletion of the CHILD_SAs or of the IKE_SA — whatever was tracked because of them has to come out again without an exception
+    forced = [[('honest', 'spi-len-3:delete-kids')], [('honest', 'spi-len-1:delete-ike')], [('honest', 'spi-same:delete-kids')],
+              [('honest', 'spi-len-5:delete-kids')], [('honest', 'spi-len-0:delete-ike')], [('honest', 'spi-same:delete-ike')]]
+    rogue.campaign(ctx, res, ctx.scale(12, 200), 50, oracles=[CPX.o_no_escape], forced=forced)
     return res
 
 
